@@ -43,7 +43,21 @@ const READER_ANSWERS = {
   invalidUtf8: { kind: 'b64', b64: Buffer.from([0x7b, 0xff, 0xfe, 0x22, 0x80]).toString('base64') },
   bom: { kind: 'text', text: '\ufeff' + VALID_MAP },
   big: { kind: 'repeat', prefix: '{"version":3,"sources":["o.ts"],"names":[],"mappings":"', unit: ';', times: 0, suffix: 'AAAA"}' },
-  ioerror: { kind: 'other' }
+  ioerror: { kind: 'other' },
+  sourceless: { kind: 'text', text: JSON.stringify({ version: 3, sources: ['o.ts'], names: [], mappings: 'A,SAAA;A;AACA,C' }) },
+  onlySourceless: { kind: 'text', text: JSON.stringify({ version: 3, sources: [], names: [], mappings: 'A,C,E;A' }) },
+  nameIdxHigh: { kind: 'text', text: JSON.stringify({ version: 3, sources: ['o.ts'], names: [], mappings: 'AAAAE,CAACA' }) },
+  fiveFieldsNoNames: { kind: 'text', text: JSON.stringify({ version: 3, sources: ['o.ts'], mappings: 'AAAAA' }) },
+  hugeColumn: { kind: 'text', text: JSON.stringify({ version: 3, sources: ['o.ts'], names: [], mappings: 'AAAA,+////HAAA' }) },
+  i32Overflow: { kind: 'text', text: JSON.stringify({ version: 3, sources: ['o.ts'], names: [], mappings: 'AAAA,ggggggEAAggggggE' }) },
+  manyLines: { kind: 'repeat', prefix: '{"version":3,"sources":["o.ts"],"names":[],"mappings":"', unit: 'AACA;', times: 200000, suffix: 'AACA"}' },
+  sourcesContentNull: { kind: 'text', text: JSON.stringify({ version: 3, sources: ['o.ts'], sourcesContent: [null], names: ['n'], mappings: 'AAAAA' }) },
+  sourceRootWeird: { kind: 'text', text: JSON.stringify({ version: 3, sourceRoot: '\u0000/../..//', sources: ['../../../o.ts', ''], names: [], mappings: 'AAAA,CCAA' }) },
+  sectionsNested: { kind: 'text', text: JSON.stringify({ version: 3, sections: [{ offset: { line: 0, column: 0 }, map: { version: 3, sections: [{ offset: { line: 0, column: 0 }, map: JSON.parse(VALID_MAP) }] } }] }) },
+  sectionsOverlap: { kind: 'text', text: JSON.stringify({ version: 3, sections: [{ offset: { line: 5, column: 0 }, map: JSON.parse(VALID_MAP) }, { offset: { line: 0, column: 0 }, map: JSON.parse(VALID_MAP) }] }) },
+  mappingsNotString: { kind: 'text', text: JSON.stringify({ version: 3, sources: ['o.ts'], names: [], mappings: 7 }) },
+  sourcesNotArray: { kind: 'text', text: JSON.stringify({ version: 3, sources: 'o.ts', names: [], mappings: 'AAAA' }) },
+  deepJson: { kind: 'repeat', prefix: '', unit: '[', times: 100000, suffix: '' }
 }
 
 const FILE_NAMES = ['/p/app.js', '', '/', 'a.js', 'd/a.js', '/abs/d/a.js', '..', 'd/', '.', '//', 'x'.repeat(4096) + '.js', 'a\u0000b.js', 'ñ/á €.js', 'C:\\p\\a.js', ' ', 'a.js/']
@@ -176,6 +190,37 @@ async function build (tier) {
       })
     }
   }
+  // (ii-b) oversized but flat inputs (nesting depth stays small)
+  {
+    const big = [
+      ['many_statements', 'function f(a, b) {\n' + 'x = a + b;\n'.repeat(thorough ? 60000 : 8000) + '}'],
+      ['long_line', 'function f(a, b) { return ' + Array.from({ length: thorough ? 20000 : 3000 }, (_, i) => 'h(a' + i + ' + b)').join(', ') + ' }'],
+      ['long_string', 'function f(a) { return a + "' + 'x'.repeat(thorough ? 4000000 : 300000) + '" }'],
+      ['many_functions', Array.from({ length: thorough ? 20000 : 3000 }, (_, i) => `function f${i}(a) { return a?.trim() + ${i} }`).join('\n')],
+      ['long_chain', 'function f(a) { return a' + '.trim()'.repeat(thorough ? 800 : 200) + ' }'],
+      ['long_sum', 'function f(a) { return a' + ' + a'.repeat(thorough ? 800 : 200) + ' }'],
+      ['long_template', 'function f(a) { return `' + '${a}x'.repeat(thorough ? 20000 : 2000) + '` }'],
+      ['many_comments', '/* c */ '.repeat(thorough ? 200000 : 20000) + 'function f(a, b) { return a + b }']
+    ]
+    for (const [name, code] of big) for (const cfg of ['FULL', 'COMMENTS']) { stats.states++; stats.transitions++; leaves.push({ fam: 'big', key: 'big:' + name + ':' + cfg, code, file: '/p/big.js', config: cfg }) }
+  }
+  // (iii-b) the text of the reference itself: every token string of length <= Lu over the trigger tokens of
+  // the URL handling (data-URL pieces, parameters, path pieces, characters whose case mapping changes their
+  // UTF-8 length, separators)
+  {
+    const UTOK = ['data:', 'application/json', ';', 'charset=', 'utf-8', 'base64', ',', 'e30=', '\u212A', '\u0130', 'x.map', '/', '..', ' ', '%', '#', 'BASE64,', 'İ'.repeat(12)]
+    const Lu = thorough ? 4 : 3
+    const dims = []
+    for (let i = 0; i < Lu; i++) dims.push({ name: 'u' + i, symbols: [''].concat(UTOK), free: true })
+    dims.push({ name: 'prefix', symbols: ['', 'data:application/json;', 'data:application/json;charset='], free: true })
+    const r = enumerate(dims, { valid: (cur, i) => i === 0 || i >= Lu || !(cur['u' + (i - 1)] === '' && cur['u' + i] !== '') })
+    stats = addStats(stats, r.stats)
+    for (const l of r.leaves) {
+      let u = l.pick.prefix
+      for (let i = 0; i < Lu; i++) u += l.pick['u' + i]
+      leaves.push({ fam: 'url', key: 'url:' + u, code: 'function f(a, b) {\n  return a + b\n}\n//# sourceMappingURL=' + u + '\n', file: '/p/app.js', config: Object.assign({}, C.FULL, { chainSourceMap: true, comments: true }), vfs: { '*': READER_ANSWERS.valid } })
+    }
+  }
   // (iv) configurations
   {
     const cfgs = weirdConfigs()
@@ -223,7 +268,7 @@ function requests (leaf) {
 function normPanic (msg) {
   let m = String(msg || '')
   m = m.replace(/\/root\/\.cargo\/registry\/src\/[^/]+\//, '').replace(/:\d+$/, '')
-  m = m.replace(/\d+/g, 'N')
+  m = m.replace(/`[^`]*`/g, '`…`').replace(/\d+/g, 'N')
   return m.slice(0, 160)
 }
 
@@ -241,7 +286,7 @@ async function check (leaf, resps) {
   } else {
     violations.push({ rule: r.status, sig: leaf.fam, detail: `${r.status} (${r.code || ''} ${r.signal || ''}) on ${leaf.key} code=${JSON.stringify(leaf.code).slice(0, 300)}` })
   }
-  return { nontrivial: true, outcome: leaf.fam + ':' + outcome, violations, distinctKey: JSON.stringify([leaf.code, leaf.file, leaf.config, leaf.vfs, leaf.parentMode]), sample: { family: leaf.fam, file: String(leaf.file).slice(0, 80), code: leaf.code.slice(0, 200), status: r.status, micros: r.micros } }
+  return { nontrivial: true, outcome: leaf.fam + ':' + outcome, violations, distinctKey: leaf.code.length > 100000 ? leaf.key : JSON.stringify([leaf.code, leaf.file, leaf.config, leaf.vfs, leaf.parentMode]), sample: { family: leaf.fam, file: String(leaf.file).slice(0, 80), code: leaf.code.slice(0, 200) + (leaf.code.length > 200 ? '…(' + leaf.code.length + ' chars)' : ''), status: r.status, micros: r.micros } }
 }
 
 module.exports = {
